@@ -1,4 +1,4 @@
-import RosuModel.Lemmas.GenStateExactWrap
+import RosuModel.Lemmas.GenStateExactMania2
 import Mathlib.Data.Rat.Floor
 
 /-!
@@ -13,8 +13,11 @@ Counts are bounded by `u32::MAX` as in the Rust code.
 * `taiko_optimal`, `catch_tiny_optimal`, `osu_n300_given_optimal`, `osu_n100_given_optimal`,
   `osu_n50_given_optimal`, `osu_none_given_optimal` : **global** optimality of the generated state.
 * `osu_shift_preserves_acc`, `mania_shift_preserves_acc` : the priority shifts do not move accuracy.
-* `mania_selected_is_best_of_window`, `mania_generated_acc` : mania returns the best *enumerated*
-  candidate (global optimality is not claimed for mania).
+* `mania_none_given_optimal` : **global** optimality of mania's nested search when no hit result is
+  provided (classic and lazer weights), via `Lemmas/GenStateExactMania2.lean`.
+* `mania_selected_is_best_of_window`, `mania_generated_acc` : for *every* arm with at least two open
+  hit results mania returns the best *enumerated* candidate (global optimality with some results
+  provided is outside the property's quantifier; see `ManiaProvidedOptimal` below).
 -/
 
 set_option linter.unusedSectionVars false
@@ -413,6 +416,45 @@ theorem mania_generated_acc (S acc : K) (c : ManiaCfg) (b : ManiaB K) (hacc : b.
   rw [decide_eq_true hmis, maniaSearch_ok S x, t1]
   rfl
 
+/-- **mania, accuracy (+ optional misses) given, no hit result provided** (the arm the property
+quantifies over), classic weights 60/60/40/20/10 and lazer weights 61/60/40/20/10: a candidate is
+accepted, no check fails, the misses are as given (clamped to the objects), all judgements
+(`n_objects`, plus the hold notes for non-classic lazer) are distributed, and **no** state with
+the same misses and judgements is strictly closer to the target accuracy — the nested
+n320/n300/n200/n100 windows always contain a global optimum, and the priority shift keeps it. -/
+theorem mania_none_given_optimal (S acc : K) (h0 : 0 ≤ acc) (h1 : acc ≤ 1) (hS : 1 < S)
+    (c : ManiaCfg) (b : ManiaB K) (hacc : b.acc = some acc) (h320 : b.n320 = none)
+    (h300 : b.n300 = none) (h200 : b.n200 = none) (h100 : b.n100 = none) (h50 : b.n50 = none)
+    (hsmall : c.nObjects + c.nHoldNotes ≤ u32Max) :
+    let n₀ := min (passedU32 c.passed) c.nObjects
+    let N := if c.classic then n₀ else n₀ + c.nHoldNotes
+    let o := @maniaGenRaw K (fieldOps S) c b
+    o.accepted = true ∧ o.ok = true ∧ o.state.misses = optMin b.misses n₀ ∧ o.state.totalHits = N ∧
+      ∀ s : ManiaState, s.misses = o.state.misses → s.totalHits = N →
+        |acc - @maniaAcc K (fieldOps S) c.classic o.state|
+          ≤ |acc - @maniaAcc K (fieldOps S) c.classic s| := by
+  intro n₀ N o
+  have hunk : 2 ≤ b.unknowns := by
+    unfold ManiaB.unknowns
+    rw [h320, h300, h200, h100, h50]
+    decide
+  obtain ⟨g1, g2, g3, g4, g5⟩ := mania_generated_acc S acc c b hacc hunk
+  have hm : optMin b.misses n₀ ≤ n₀ := optMin_le _ _
+  have hn₀ : n₀ ≤ c.nObjects := Nat.min_le_right _ _
+  have hmN : optMin b.misses n₀ ≤ N := by
+    show _ ≤ (if c.classic then n₀ else n₀ + c.nHoldNotes)
+    split <;> omega
+  have hNs : N ≤ u32Max := by
+    show (if c.classic then n₀ else n₀ + c.nHoldNotes) ≤ u32Max
+    split <;> omega
+  obtain ⟨s1, _, s3, s4, s5⟩ := maniaSearch_none_spec S hS acc h0 h1 c.classic N
+    (N - optMin b.misses n₀) (optMin b.misses n₀) (by omega) hNs
+  rw [← maniaCtxOf_none S acc c b h320 h300 h200 h100 h50] at s1 s3 s4 s5
+  refine ⟨g2.trans s1, g1, g4.trans s3, g3.trans s4, ?_⟩
+  intro s hsm hst
+  rw [g5]
+  exact s5 s (hsm.trans (g4.trans s3)) hst
+
 end C13
 
 /-! ## Non-vacuity: the hypotheses are satisfiable (over `ℚ`, sentinel `2`) -/
@@ -475,5 +517,24 @@ example :
     let b : ManiaB ℚ := ⟨some (93 / 100), none, none, none, none, none, some 3⟩
     b.acc = some (93 / 100) ∧ 2 ≤ b.unknowns :=
   ⟨rfl, by decide⟩
+
+/-- `mania_none_given_optimal` instantiated (lazer weights, 3 hold notes, 2 misses). -/
+example :
+    (@maniaGenRaw ℚ (fieldOps 2) ⟨20, 3, none, false, .best⟩
+      ⟨some (937 / 1000), none, none, none, none, none, some 2⟩).accepted = true :=
+  (mania_none_given_optimal (2 : ℚ) (937 / 1000) (by norm_num) (by norm_num) (by norm_num)
+    ⟨20, 3, none, false, .best⟩ ⟨some (937 / 1000), none, none, none, none, none, some 2⟩
+    rfl rfl rfl rfl rfl rfl (by decide)).1
+
+/-- concrete generated states of the exact instance, lazer and classic (cross-check) -/
+example :
+    (@maniaGenRaw ℚ (fieldOps 2) ⟨20, 3, none, false, .best⟩
+      ⟨some (937 / 1000), none, none, none, none, none, some 2⟩).state.totalHits = 23 := by
+  decide +kernel
+
+example :
+    (@maniaGenRaw ℚ (fieldOps 2) ⟨20, 3, none, true, .worst⟩
+      ⟨some (937 / 1000), none, none, none, none, none, some 2⟩).state.totalHits = 20 := by
+  decide +kernel
 
 end Rosu.GenState.Opt
